@@ -5,23 +5,23 @@ change, and record the verdict under benign/<ID>-b<k>/.  Verdicts: GREEN (exit 0
 the designed verdict when a rewrite changes bits or leaves a translator's subset), FALSE-ALARM (a failing input was reported although the
 property holds: the oracle is wrong and must be corrected)."""
 import json, os, re, subprocess, sys, shutil
-OUT = "/tmp/seed/out"
+OUT = "/tmp/seed/out"; ROOT = os.environ.get("VERIF_ROOT", "/verif")
 names = sys.argv[1:] or sorted(d for d in os.listdir(OUT) if "-b" in d)
 for d in names:
     src = os.path.join(OUT, d); prop = d.split("-")[0]; wt = f"/tmp/seed/wt-{prop}"
     if not os.path.exists(os.path.join(src, "patch.diff")): continue
     conf = ""
     for attempt in range(3):
-        conf = subprocess.run(["tools/confirm_seed.sh", wt, src], capture_output=True, text=True, cwd="/verif").stdout.strip().splitlines()[-1]
+        conf = subprocess.run(["tools/confirm_seed.sh", wt, src], capture_output=True, text=True, cwd=ROOT).stdout.strip().splitlines()[-1]
         if "ok. 66 passed" in conf: break
     m = re.search(r"demo_with_change_exit=(\d+) demo_without_exit=(\d+)", conf)
     ok = "ok. 66 passed" in conf and "doc: test result: ok. 3 passed" in conf and m and m.group(1) == "0" and m.group(2) == "0"
     if not ok:
         print(f"{d} UNCONFIRMED {conf[:300]}"); continue
-    out = subprocess.run(["tools/try_seed.sh", prop, os.path.join(src, "patch.diff"), "quick"], capture_output=True, text=True, cwd="/verif").stdout
+    out = subprocess.run(["tools/try_seed.sh", prop, os.path.join(src, "patch.diff"), "quick"], capture_output=True, text=True, cwd=ROOT).stdout
     classes, broken = [], []
     for mm in re.finditer(r"VIOLATION property=\S+ replay=(\S+)", out):
-        rp = os.path.join("/verif", mm.group(1))
+        rp = os.path.join(ROOT, mm.group(1))
         if os.path.exists(rp):
             r = json.load(open(rp))
             if r.get("kind") == "failing-input": classes.append((r["class"], r.get("what", "")[:300], r.get("input", "")[:300])); broken = r.get("broken_obligations", broken)
